@@ -157,6 +157,17 @@ STATEMENT_PROGRAMS = [
     "def st_22(a: bool, b: bool) -> Tuple[bool, bool]:\n\treturn (a and b, a ^ b)",
     "def st_23(a: Qint[2]) -> Qint[4]:\n\treturn a * a",
     "def st_24(a: Qint[2], b: Qint[2]) -> bool:\n\treturn (a ^ b) == 3 or a < b",
+    # if statements whose (compound) condition guards several assignments / an else branch: the condition holder
+    # symbol is read by more than one generated definition
+    "def st_25(a: bool, b: bool, c: Qint[2]) -> Qint[2]:\n\td = c\n\te = c\n\tif a and b:\n\t\td = c + 1\n\t\te = c + 2\n\treturn d ^ e",
+    "def st_26(a: bool, b: bool, c: bool) -> bool:\n\td = c\n\te = not c\n\tif a or b:\n\t\td = not c\n\t\te = c\n\telse:\n\t\te = a\n\treturn d and e",
+    "def st_27(a: Qint[2], b: Qint[2]) -> Qint[2]:\n\tc = a\n\td = b\n\tif a > b:\n\t\tc = b\n\t\td = a\n\treturn c + d",
+    "def st_28(a: bool, b: bool) -> bool:\n\tc = False\n\td = False\n\tif a:\n\t\tc = b\n\t\td = not b\n\treturn c or d",
+    # locals whose names merely start like the return symbol or like internal helpers
+    "def st_29(a: bool, b: bool, c: bool) -> bool:\n\t_retval = a and b\n\t_retry = _retval or c\n\treturn _retry ^ a",
+    "def st_30(a: Qint[2], b: Qint[2]) -> Qint[2]:\n\t_ret_lo = a ^ b\n\t_return_code = _ret_lo + 1\n\treturn _return_code",
+    "def st_31(a: bool, b: bool) -> Tuple[bool, bool]:\n\t_retx = a and not b\n\tanc_0 = _retx or b\n\treturn (anc_0, _retx ^ a)",
+    "def st_32(a: bool, b: bool, c: bool, d: bool) -> bool:\n\tt = a and not d\n\tu = not b\n\treturn (t or c) and u",
 ]
 
 
